@@ -104,6 +104,7 @@ def all_jobs():
     HASHFN = '_ZN4blocL17bloc_builtin_hashEjPKcj'
     J.append(dict(id='builtin_hash_loop', src='blocc/builtin/builtin_hash.cpp', contract='builtin_hash.c', enforce=HASHFN, roots=[HASHFN], replace=[], cut=[RTE_CTOR, RTE_CTOR_S],
                   props=['C01', 'C10'], pretty='bloc::bloc_builtin_hash', canaries=['normal'], defines=['HASH_LOOP_JOB', 'HASH_LEN_MAX=6'], unwind=8, bounded_inputs=True,
+                  thorough=dict(defines=['HASH_LOOP_JOB', 'HASH_LEN_MAX=12'], unwind=14, unwind_why='DJB hash loop over the buffer: bounded to buffers of at most 12 bytes (thorough tier)'),
                   unwind_why='DJB hash loop over the buffer: bounded to buffers of at most 6 bytes', structs=DEFAULT_STRUCTS + [STD_STRING, VEC_CHAR, 'bloc::Expression', 'bloc::Context']))
     for n, c, props in (('builtin_chr', 'CHRExpression', ['C01', 'C02', 'C05', 'C10']), ('builtin_hash', 'HASHExpression', ['C01', 'C02', 'C05', 'C10'])):
         mg = '_ZNK4bloc%d%s5valueERNS_7ContextE' % (len(c), c)
@@ -225,6 +226,10 @@ def all_jobs():
                       render_ns=['utf8helper'], globals_src='modules/utf8/utf8helper_charmap.cpp', enums=[],
                       globals=['extent:utf8helper::charmap_us7ascii', 'utf8helper::pagemap_16', 'utf8helper::pagemap_24_e1', 'utf8helper::pagemap_24_e2', 'utf8helper::pagemap_32_f0_90', 'utf8helper::pagemap_32_f0_9e'],
                       structs=['utf8helper::Parser', 'utf8helper::character']))
+    mg = '_ZNK4bloc15FORALLStatement15finalizeControlERNS_7ContextEPv'
+    J.append(dict(id='stmt_forall_finalize', src='blocc/statement_forall.cpp', contract='stmt_forall.c', enforce=mg, roots=[mg], replace=[V_CLEAR], cut=[V_CLEAR, '_ZN4bloc7Context9getSymbolEj'],
+                  props=['C01', 'C06', 'C07'], pretty='bloc::FORALLStatement::finalizeControl', canaries=['normal'],
+                  structs=DEFAULT_STRUCTS + ['bloc::FORALLStatement', 'bloc::FORALLStatement::RT', 'bloc::Context', 'bloc::Symbol', 'bloc::Context::MemorySlot', 'bloc::VariableExpression', 'bloc::Expression']))
     # ---- C13: stream readers ----
     mg = '_ZN4bloc12StringReader4readEPNS_6ParserEPci'
     J.append(dict(id='reader_string', src='blocc/string_reader.cpp', contract='reader_string.c', enforce=mg, roots=[mg], replace=[], cut=[],
@@ -271,7 +276,8 @@ def all_jobs():
                       replay=dict(kind='evalnode', headers=['blocc/builtin/builtin_%s.h' % name], mirror_class=cls, children=nargs,
                                   construct='new bloc::%s(std::vector<bloc::Expression*>{%s})' % (cls, ', '.join('kids[%d]' % i for i in range(nargs))),
                                   script='%s(%s)' % (name, ', '.join('{%d}' % i for i in range(nargs)))),
-                      **({'bounded_inputs': True} if strmax else {}),
+                      **({'bounded_inputs': True, 'thorough': dict(unwind=uw + 6, unwind_why=uw_why.replace('at most 2', 'at most 4') + ' (thorough tier)',
+                                                                     defines=['BUILTIN_FN=' + mg, 'BUILTIN_CLASS=' + cls, 'BUILTIN_NARGS=%d' % nargs, 'BUILTIN_STR_MAX=%d' % (strmax + 2)])} if strmax else {}),
                       structs=DEFAULT_STRUCTS + [STD_STRING, VEC_CHAR, 'bloc::Imaginary', 'std::complex<double>', 'bloc::Context', 'bloc::' + cls]))
     return J
 
